@@ -1,6 +1,6 @@
 (* C17 - an I/O error in the middle of an operation leaves the store intact.  Statements only. *)
 From Coq Require Import List ZArith NArith.
-From DOS Require Import Base Store StoreProofs StoreLemmas Programs ProgramsProofs PackProofs MaintProofs RepackProofs AddPackProofs ImportProofs FaultProofs.
+From DOS Require Import Base Store StoreProofs StoreLemmas Programs ProgramsProofs PackProofs MaintProofs RepackProofs AddPackProofs ImportProofs FaultProofs History.
 Import ListNotations.
 
 Section C17.
@@ -95,6 +95,16 @@ Qed.
 (* the handler events themselves, from any state: they can only append unsynced bytes to packs *)
 Theorem C17_handlers_only_append : forall hs s, forallb handler_ev hs = true -> appended (fst s) (fst (run_events s hs)).
 Proof. exact handlers_appended. Qed.
+(* ... and for whole histories: an I/O error after ANY number of primitives of ANY finite history of operations, followed by ANY handler
+   sequence, leaves a folder that satisfies the invariant *)
+Theorem C17_fault_anywhere_in_any_history : forall ops s n hs,
+  Inv H inflate (fst s) -> pending (snd s) = [] -> pre_hist H inflate s ops -> forallb handler_ev hs = true ->
+  Inv H inflate (fst (run_events s (firstn n (hist_trace H s ops) ++ hs))).
+Proof.
+  intros ops s n hs HI Hp Hpre Hh.
+  apply (fault_anywhere (fun w' => Inv H inflate w') s (hist_trace H s ops)); [|exact (history_every_crash_point H inflate H_inj ops s HI Hp Hpre)|exact Hh].
+  intros w1 w2 A I1. exact (Inv_appended H inflate w1 w2 A I1).
+Qed.
 End C17.
 Print Assumptions C17_fault_trace_monitor.
 Print Assumptions C17_no_wrong_bytes.
@@ -107,3 +117,4 @@ Print Assumptions C17_fault_in_repack.
 Print Assumptions C17_fault_in_add_to_pack.
 Print Assumptions C17_fault_in_import.
 Print Assumptions C17_handlers_only_append.
+Print Assumptions C17_fault_anywhere_in_any_history.
